@@ -327,7 +327,16 @@ def affcomb(ctx, F):
                         else:
                             why = 'the test that suppresses the coefficients is not "every coefficient == 0.0" exactly'
         err_blocks = [bb for bb, t in b.calls() if Callee(t['func']).name == 'from_residual']
-        if cfg.reaches(0, EXIT, avoid=[wl[0][0]] + zero_edges + err_blocks):
+        # the same test held in a variable first (`let hide = simplify_zero && row.iter().all(..); if hide { return Ok(()) }`): blocks that are
+        # only entered when the all-zero test came out true
+        zero_blocks = []
+        for bb_, _bl in b.live_blocks():
+            for l in literals(b, R, bb_):
+                if l[0] == 'true' and is_call(l[1], 'Iterator::all') and l[1][2][0] == ('param', 'row') and l[1][2][1][0] == 'closure':
+                    cb = F.closure(l[1][2][1][1])
+                    if cb is not None and Interp(F, cb, {}, True, 0).element_predicate(cb) == 'zero':
+                        zero_blocks.append(bb_)
+        if cfg.reaches(0, EXIT, avoid=[wl[0][0]] + zero_edges + zero_blocks + err_blocks):
             ok = False
             why = why or 'a successful path skips the coefficients without an exact all-zero test'
     (ctx.ok if ok else ctx.bad)('C19.R3', 'write_affcomb', 'bias then coefficients of the same row; coefficients omitted only if all are exactly 0.0 and simplify_zero is set' if ok else
